@@ -353,13 +353,26 @@ def sustainOk (g : Geo) (s : Seq) : Bool :=
   g.crossings.all (fun i => i.sustain ≤ 1 ||
     i.factors.all (fun f => (List.range g.n).all (fun t => s.at f t == s.at f ((t / i.sustain) * i.sustain))))
 
+/-- A factor of a block nested as the *outer* block is held for `sustainOf g f` trials: its own trial number at
+    trial `t` of the sequence is `t / c`, its start, stride and window offsets count own trials. -/
+def heldFor (g : Geo) (f : Nat) : Nat := if sustainOf g f = 0 then 1 else sustainOf g f
+
+def appliesG (d : Design) (g : Geo) (f t : Nat) : Bool := applies d f (t / heldFor g f)
+
+/-- the levels of derived factor `id` whose predicate accepts the window at trial `t`, read over the factor's own
+    trials (`Fill.windowKeyS_group` is the same reading of RandomGen's fill-in) -/
+def matchingG (d : Design) (g : Geo) (f : FactorD) (w : WindowD) (id : Nat) (look : Nat → Nat → Option Nat) (t : Nat) :
+    List Nat :=
+  let c := heldFor g id
+  matching d f w (fun dep u => look dep (u * c + t % c)) (t / c)
+
 def shapeOk (d : Design) (g : Geo) (s : Seq) : Bool :=
   g.design.all (fun f =>
     (s.col f).length == g.n &&
     (List.range g.n).all (fun t =>
       match s.at f t with
-      | none => !(applies d f t)
-      | some l => applies d f t && decide (l < numLevels d f)))
+      | none => !(appliesG d g f t)
+      | some l => appliesG d g f t && decide (l < numLevels d f)))
 
 def derivedOk (d : Design) (g : Geo) (s : Seq) : Bool :=
   g.design.all (fun id =>
@@ -367,8 +380,8 @@ def derivedOk (d : Design) (g : Geo) (s : Seq) : Bool :=
     match f.window with
     | none => true
     | some w => (List.range g.n).all (fun t =>
-        !(applies d id t) ||
-        (match matching d f w (fun dep u => s.at dep u) t with
+        !(appliesG d g id t) ||
+        (match matchingG d g f w id (fun dep u => s.at dep u) t with
          | [l] => s.at id t == some l
          | _ => false)))
 
@@ -412,8 +425,8 @@ def deriveAll (d : Design) (g : Geo) (simpleRows : List (List (Nat × Nat))) : O
           match c with
           | none => none
           | some cs =>
-            if !(applies d id t) then some (cs ++ [none]) else
-            match matching d f w (fun dep u => Seq.at sq dep u) t with
+            if !(appliesG d g id t) then some (cs ++ [none]) else
+            match matchingG d g f w id (fun dep u => Seq.at sq dep u) t with
             | [l] => some (cs ++ [some l])
             | _ => none) (some [])
         colOpt.map (fun col => sq ++ [(id, col)])) (some base)
